@@ -10,6 +10,7 @@ import (
 	"hash/fnv"
 	"net/http"
 	"net/http/httptest"
+	"os"
 	"regexp"
 	"strconv"
 	"strings"
@@ -145,7 +146,11 @@ func hexs(s string) string { return vh.Hex([]byte(s)) }
 
 func genOffset(r *vh.Rand, size int) string {
 	var v int
-	switch r.Intn(14) {
+	k := r.Intn(14)
+	if (k == 6 || k == 7) && !r.Chance(1, 4) {
+		k = 10
+	}
+	switch k {
 	case 0:
 		v = 0
 	case 1:
@@ -190,7 +195,11 @@ func ws(r *vh.Rand) string {
 }
 
 func genSpec(r *vh.Rand, size int) string {
-	switch r.Intn(10) {
+	k := r.Intn(10)
+	if k == 9 && !r.Chance(1, 3) {
+		k = r.Intn(9)
+	}
+	switch k {
 	case 0, 1, 2, 3:
 		a, b := genOffset(r, size), genOffset(r, size)
 		if r.Chance(4, 5) { // mostly ordered
@@ -707,4 +716,20 @@ func exec(c vh.Case, o *vh.Out) {
 	}
 }
 
-func main() { vh.Main(vh.Config{Gen: gen, Exec: exec}) }
+func main() {
+	// `hx fileline <seed> <size> <layout> <chunk> <links> <raw> <cidv> <mtime>` prints the `file` op line
+	// (with the real CID) for hand-written corpus cases
+	if len(os.Args) == 10 && os.Args[1] == "fileline" {
+		a := os.Args[2:]
+		s := fileSpec{seed: vh.Atoi(a[0]), size: vh.Atoi(a[1]), layout: a[2], chunk: vh.Atoi(a[3]), links: vh.Atoi(a[4]),
+			raw: a[5] == "1", cidv: vh.Atoi(a[6])}
+		s.mtime, _ = strconv.ParseInt(a[7], 10, 64)
+		c, _, actual, err := importFile(getWorld(), s)
+		if err != nil {
+			panic(err)
+		}
+		fmt.Printf("file %s %s %s %d\n", s, c, assets.AssetHash, actual)
+		return
+	}
+	vh.Main(vh.Config{Gen: gen, Exec: exec})
+}
